@@ -10,7 +10,7 @@
 (* err = "ok" | uaf-* | race-* (first problem found).                      *)
 (***************************************************************************)
 EXTENDS Naturals, FiniteSets, Sequences, TLC
-CONSTANTS NSwaps, OrdFirst, OrdConfirm, OrdSlotSwap, OrdStSwap, OrdPayOk, OrdPayFail, OrdPayFailR4
+CONSTANTS StrictSC, NSwaps, OrdFirst, OrdConfirm, OrdSlotSwap, OrdStSwap, OrdPayOk, OrdPayFail, OrdPayOkW, OrdPayFailW, OrdPayFailR4
 R == "r"  W == "w"
 Threads == {R, W}
 Addrs == {1, 2}
@@ -35,7 +35,12 @@ vars == <<mem, cur, acq, G, dclk, live, pc, loc, err>>
 
 Last(x) == mem[x][Len(mem[x])]
 \* --- generic effects, computed as records [mem, cur, acq, G, val]
-PreSC(t, o) == IF o = "sc" THEN Join(cur[t], G) ELSE cur[t]
+\* StrictSC = FALSE: "SeqCst synchronises the time lines" (what the crate's comments assume and every mainstream
+\* hardware mapping provides): a SeqCst access sees, for EVERY atomic location, at least what any earlier SeqCst
+\* access had seen.  StrictSC = TRUE: ISO C++20 / Rust: the SeqCst order only constrains SeqCst accesses to the
+\* SAME location (a SeqCst load reads the last SeqCst write to that location or a later one); a non-SeqCst load
+\* that follows a SeqCst read-modify-write of ANOTHER location may still be stale.
+PreSC(t, o) == IF o = "sc" /\ ~StrictSC THEN Join(cur[t], G) ELSE cur[t]
 \* load of message i of x by t with order o
 LoadEff(t, x, i, o) ==
   LET c0 == PreSC(t, o)
@@ -151,7 +156,8 @@ W1 == /\ pc[W] = "W1" /\ LET e == RmwEff(W, "st", loc[W].p, OrdStSwap) IN
           Apply(W, e) /\ loc' = [loc EXCEPT ![W].old = e.val]
       /\ Goto(W, "W2") /\ UNCHANGED <<dclk, live, err>>
 W2 == /\ pc[W] = "W2" /\ IncStep(W, loc[W].old, "W3")
-W3 == /\ pc[W] = "W3" /\ CasSlot(W, loc[W].old, NONE, OrdPayOk, OrdPayFail, "W4", "W5")
+\* debt/mod.rs pay_all: the writer's check of the slot (own orderings since fix F8)
+W3 == /\ pc[W] = "W3" /\ CasSlot(W, loc[W].old, NONE, OrdPayOkW, OrdPayFailW, "W4", "W5")
       /\ UNCHANGED <<dclk, live, err, loc>>
 W4 == /\ pc[W] = "W4" /\ IncStep(W, loc[W].old, "W5")
 W5 == /\ pc[W] = "W5" /\ DecStep(W, loc[W].old, "W6")
